@@ -15,14 +15,15 @@ Record deviations := {
   d_float_floor : bool;        (* D63: binary floating point in period*(1.0+floor(dt/period)) lands ON the current instant *)
   d_su_coincidence : bool;     (* D64: a time-only once() whose instant today equals startup_time is not moved to the next day *)
   d_newsub_adj_recheck : bool; (* D62: (running trigger, default subsystem) the wake-up re-check uses the DST-adjusted time *)
-  d_legacy_gap_recheck : bool  (* D66: (running trigger, legacy subsystem) an early wake-up is re-armed with a naive difference *)
+  d_legacy_gap_recheck : bool; (* D66: (running trigger, legacy subsystem) an early wake-up is re-armed with a naive difference *)
+  d_md_invalid_raises : bool   (* D65: once(2/29 ...) raises ValueError in a year without that day instead of skipping the year *)
 }.
 Definition all_off : deviations :=
   {| d_period_wallclock := false; d_once_md_this_year := false; d_float_floor := false; d_su_coincidence := false;
-     d_newsub_adj_recheck := false; d_legacy_gap_recheck := false |}.
+     d_newsub_adj_recheck := false; d_legacy_gap_recheck := false; d_md_invalid_raises := false |}.
 Definition as_code : deviations :=
   {| d_period_wallclock := true; d_once_md_this_year := true; d_float_floor := true; d_su_coincidence := true;
-     d_newsub_adj_recheck := true; d_legacy_gap_recheck := true |}.
+     d_newsub_adj_recheck := true; d_legacy_gap_recheck := true; d_md_invalid_raises := true |}.
 
 (* ---------- cron(min hr dom mon dow): every field already expanded to its value set; None = "*" ---------- *)
 Record cronx := { c_min : option (list Z); c_hour : option (list Z); c_dom : option (list Z);
@@ -79,35 +80,47 @@ Section Next.
   Definition fires (now t su : Z) : cand :=
     if (now <? t) || startup_eq now t su then Some (t, t) else None.
 
-  (* first year shift whose instant is still to come *)
+  (* first year shift whose instant is still to come; a year in which the month/day does not exist is skipped
+     (conformant) or raises (D65) *)
   Fixpoint first_year (e : dtexpr) (shifts : list Z) (now su : Z) : res cand :=
     match shifts with
     | [] => ROk None
     | ys :: rest =>
-        rbind (denote_y e ys 0 now su) (fun '(t, _) =>
-        match fires now t su with
-        | Some c => ROk (Some c)
-        | None => first_year e rest now su
-        end)
+        match denote_y e ys 0 now su with
+        | RExc => if d_md_invalid_raises cfg then RExc else first_year e rest now su
+        | r => rbind r (fun '(t, _) =>
+               match fires now t su with
+               | Some c => ROk (Some c)
+               | None => first_year e rest now su
+               end)
+        end
     end.
 
   Definition is_monthday (e : dtexpr) : bool := match de_date e with DMonthDay _ _ => true | _ => false end.
 
+  Definition year_shifts : list Z := [-1; 0; 1; 2; 3; 4; 5; 6; 7; 8].
+
   (* the once(...) branch *)
   Definition once_next (e : dtexpr) (now su : Z) : res cand :=
-    if is_monthday e && negb (d_once_md_this_year cfg) then first_year e [-1; 0; 1; 2] now su
+    if is_monthday e && negb (d_once_md_this_year cfg) then first_year e year_shifts now su
     else
-    rbind (denote e 0 now su) (fun '(t0, _) =>
+    match denote e 0 now su with
+    | RExc => if is_monthday e && negb (d_md_invalid_raises cfg) then ROk None else RExc
+    | r0 =>
+    rbind r0 (fun '(t0, _) =>
     let k := (now - t0) / DAY + 1 in                       (* (now - this_t).days + 1 *)
     let retry := negb (k =? 0) && (negb (d_su_coincidence cfg) || negb (t0 =? su)) in
     rbind (if retry then denote e k now su else ROk (t0, false)) (fun '(t, _) =>
-    ROk (fires now t su))).
+    ROk (fires now t su)))
+    end.
 
   (* start + period * (1 + floor((now - start) / period)) *)
   Definition grid_next (start P now : Z) : Z :=
     let '(s, n) := if d_period_wallclock cfg then (start, now) else (lu start, lu now) in
     let q := (n - s) / P in
-    let k := if d_float_floor cfg && fl && ((n - s) mod P =? 0) then q else q + 1 in
+    (* the float quotient can only fall short of an exact multiple when the interval in seconds is not a binary fraction
+       (P/10^6 s is dyadic iff 5^6 = 15625 divides P): 60 s, 0.25 s are exact, 0.1 s, 1.1 s, 43200.36 s are not *)
+    let k := if d_float_floor cfg && fl && ((n - s) mod P =? 0) && negb (P mod 15625 =? 0) then q else q + 1 in
     if d_period_wallclock cfg then start + P * k else ul (s + P * k).
 
   Definition period_open (s : dtexpr) (P now su : Z) : res cand :=
@@ -171,6 +184,35 @@ Section Next.
 
   Definition next_list (specs : list tspec) (now su : Z) : res cand := next_fold specs now su None.
 End Next.
+
+(* ---------- after the wait: how the two subsystems decide that the trigger time has come ---------- *)
+(* [u] is the UTC instant of a wake-up, [ul u] what dt_now() reads then; result: the UTC instant at which the function runs *)
+Section Wake.
+  Variable lu ul : Z -> Z.
+  Variable cfg : deviations.
+
+  (* legacy trigger_watch l.1146-1150: `if actual_now < time_next: timeout = (time_next - actual_now).total_seconds(); continue` *)
+  Fixpoint legacy_wake (fuel : nat) (t u : Z) : option Z :=
+    match fuel with
+    | O => None
+    | S f =>
+        let l := ul u in
+        if l <? t
+        then legacy_wake f t (u + (if d_legacy_gap_recheck cfg then t - l else lu t - u))
+        else Some u
+    end.
+
+  (* default subsystem _cycle l.131-137: `timeout = (time_next_adj - now).total_seconds(); if timeout <= 1e-6: break` *)
+  Fixpoint default_wake (fuel : nat) (t adj u : Z) : option Z :=
+    match fuel with
+    | O => None
+    | S f =>
+        let l := ul u in
+        if d_newsub_adj_recheck cfg
+        then (if adj - l <=? 1 then Some u else default_wake f t adj (u + (adj - l)))
+        else (if (t <=? l) || (lu t - u <=? 1) then Some u else default_wake f t adj (u + (lu t - u)))
+    end.
+End Wake.
 
 (* ================================================================================================ *)
 (* Spec: the instants a specification denotes at current time [now] for a trigger started at [su]    *)
